@@ -90,6 +90,13 @@ Theorem C06_format_env_block_spec : forall env,
 Proof. exact format_env_block_spec. Qed.
 Print Assumptions C06_format_env_block_spec.
 
+(* the requested working directory is entered with the parent's identity (before setgid / setuid / setpgid), and
+   exactly the requested identity changes are applied -- both when both are requested; over every stream
+   configuration and option combination of Lib/Spawn.v (504 + 32 configurations) *)
+Theorem C06_cwd_entered_with_parent_identity : forall c, In c (configs_full ++ configs_opts) -> identity_after_cwd c = true.
+Proof. exact cwd_entered_with_parent_identity. Qed.
+Print Assumptions C06_cwd_entered_with_parent_identity.
+
 Example C06_nonvacuous :
   let r := mkreq [[112]; []; [32; 34]; [255; 200]] (Some [47; 98; 105; 110; 47; 120]) (Some [([65], [49]); ([66], [50]); ([65], [51])]) (Some [47]) (Some [47; 98]) in
   prepare r = PPlan (mkplan [[47; 98; 105; 110; 47; 120]] [[112]; []; [32; 34]; [255; 200]] (Some [[66; 61; 50]; [65; 61; 51]]) (Some [47]))
